@@ -118,10 +118,23 @@ def record_trees(ptn, rng, L, idoid, trees, dense):
 
 
 def record_autop(ptn, rng, L, a, dense):
-    tr = [dict(ev='autop', L=L, nodes=a['nodes'], term=a['term'],
-               edges=[dict(src=e['src'], dst=e['dst'], act=e['act'], ops=e['ops']) for e in a['edges']])]
+    tr = []
     try:
-        g = ptn.OpGraph.from_automaton(build_autop(ptn, a), L)
+        aut = build_autop(ptn, a)
+        # AutOp.is_consistent on the real object, and on a copy with one dangling reference
+        import copy
+        broken = copy.deepcopy(aut)
+        if broken.edges:
+            k = sorted(broken.edges)[0]
+            broken.nodes[broken.edges[k].nids[0]].eids[1].remove(k)
+            broken_detected = not broken.is_consistent()
+        else:
+            broken_detected = True
+        tr.append(dict(ev='autop', L=L, term=a['term'], aut_consistent=bool(aut.is_consistent()), broken_detected=bool(broken_detected),
+                       nodes=[dict(id=int(n.nid), q=int(n.qnum), ein=[int(x) for x in n.eids[0]], eout=[int(x) for x in n.eids[1]])
+                              for n in aut.nodes.values()],
+                       edges=[dict(eid=k, src=e['src'], dst=e['dst'], act=e['act'], ops=e['ops']) for k, e in enumerate(a['edges'])]))
+        g = ptn.OpGraph.from_automaton(aut, L)
         tr.append(dict(ev='graph', g=graph_json(g), cons=_cons(g), length=int(g.length)))
         if dense and L <= 3:
             om = rand_opmap(rng, {0, 1, 2}, 2)
@@ -187,7 +200,7 @@ def run(ctx):
     ctx.model('Unfold', 'm_trees_L3h1', constants=dict(base, Mode='"trees"', L=3, TreeHeight=1, MaxTrees=1, QS='{0,1}'),
               defs=dict(COEFS='{-1,1,2}'), invariants=MODEL_INV, timeout=900)
     ctx.model('Unfold', 'm_autop_L3', constants=dict(base, Mode='"autop"', L=3, MaxAutEdges=ctx.pick(2, 3)),
-              defs=dict(COEFS='{1,2}'), invariants=MODEL_INV, timeout=900)
+              defs=dict(COEFS='{1,2}'), invariants=MODEL_INV, timeout=900, coverage=True)
     if not ctx.quick:
         ctx.model('Unfold', 'm_trees_L3', constants=dict(base, Mode='"trees"', L=3, TreeHeight=1, MaxTrees=2, QS='{0,1}'),
                   defs=dict(COEFS='{1,2}'), invariants=MODEL_INV, timeout=3000)
